@@ -316,7 +316,7 @@ def hasExt (p : Str) : Bool := (pathSplit p).2.contains 46
 structure St where
   fl : Flags := {}
   res : List (Str × Res) := []
-deriving Repr, Inhabited
+deriving DecidableEq, Repr, Inhabited
 
 def St.get (s : St) (id : Str) : Option Res := (s.res.find? (fun p => p.1 == id)).map (·.2)
 
